@@ -44,6 +44,22 @@ class Boom(Exception):
     pass
 
 
+class BoomWithArgs(Exception):
+    """an application exception whose constructor has mandatory arguments (it cannot be re-created from its class alone)"""
+
+    def __init__(self, code, detail):
+        super().__init__(code, detail)
+        self.code, self.detail = code, detail
+
+
+def boom(kind):
+    if kind == "args":
+        return BoomWithArgs(3, "detail")
+    if kind == "unicode":
+        return UnicodeDecodeError("utf-8", b"\xff", 0, 1, "invalid start byte")
+    return Boom()
+
+
 class FdStream:
     def __init__(self, fd):
         self.fd = fd
@@ -132,6 +148,7 @@ def one_run(case, res, sim):
         out = OutStream(term, pty)
         opts = case.get("options", {})
         ctxs = []
+        extra_fds, pipe_checks = [], []
         kinds = case["stack"]
         for kind in kinds:
             if kind == "Input":
@@ -149,6 +166,13 @@ def one_run(case, res, sim):
                 c = "CbreakTermmode"
             elif kind == "Nonblocking":
                 c = Nonblocking(stream)
+            elif kind == "NonblockingPipe":
+                # a stream whose status flags are exactly 0: the read end of a pipe
+                pr, pw = os.pipe()
+                extra_fds.extend([pr, pw])
+                pipe_flags_before = fcntl.fcntl(pr, fcntl.F_GETFL)
+                pipe_checks.append((pr, pipe_flags_before))
+                c = Nonblocking(FdStream(pr))
             elif kind == "Termmode":
                 a = termios.tcgetattr(pty.slave)
                 a[3] = a[3] ^ termios.ECHO
@@ -157,7 +181,7 @@ def one_run(case, res, sim):
             else:
                 raise HarnessError(f"unknown context {kind}")
             ctxs.append((kind, c))
-        reusable = all(k in ("Input", "Cbreak", "Nonblocking", "Termmode") for k in kinds)
+        reusable = all(k in ("Input", "Cbreak", "Nonblocking", "NonblockingPipe", "Termmode") for k in kinds)
         cycles = case.get("cycles", 1) if reusable else 1
         for cycle in range(cycles):
             if cycle:
@@ -188,7 +212,7 @@ def one_run(case, res, sim):
                             windows.append((kind, c))
                     for k, op in enumerate(body):
                         if ex["mode"] == "raise" and ex.get("after", 0) == k:
-                            raise Boom()
+                            raise boom(ex.get("exc", "plain"))
                         if op["op"] == "render":
                             for kind, win in windows:
                                 rows = ["r%d%s" % (i, "x" * (op.get("n", 2) % 4)) for i in range(op.get("n", 2))]
@@ -222,8 +246,8 @@ def one_run(case, res, sim):
                                 callbacks.append((inp, cb))
                                 cb()
                     if ex["mode"] == "raise" and ex.get("after", 0) >= len(body):
-                        raise Boom()
-            except Boom:
+                        raise boom(ex.get("exc", "plain"))
+            except (Boom, BoomWithArgs, UnicodeDecodeError):
                 left_by = "exception"
             except KeyboardInterrupt:
                 left_by = "keyboard_interrupt"
@@ -257,6 +281,11 @@ def one_run(case, res, sim):
                 if cur != pre_wakeup:
                     res.viol("wakeup_fd_not_restored", now=cur, expected="pre-existing pipe" if pre_wakeup != -1 else -1, **ctx)
                     return False
+            for pfd, pflags in pipe_checks:
+                now_fl = fcntl.fcntl(pfd, fcntl.F_GETFL)
+                if now_fl != pflags:
+                    res.viol("file_status_flags_not_restored", stream="pipe read end", before=pflags, after=now_fl, **ctx)
+                    return False
             if not term.cursor_visible:
                 res.viol("cursor_left_hidden", **ctx)
                 return False
@@ -279,7 +308,7 @@ def one_run(case, res, sim):
             close_trigger_fds(inp, [cb])
         for inp in inputs:
             close_trigger_fds(inp, [])
-        for fd in (wake_r, wake_w):
+        for fd in list(locals().get("extra_fds", [])) + [wake_r, wake_w]:
             if fd is not None:
                 try:
                     os.close(fd)
@@ -340,7 +369,7 @@ def run_case(case):
 STACKS = [
     ["Input"], ["Input"], ["Fullscreen"], ["CursorAware"], ["Cbreak"], ["Nonblocking"], ["Termmode"], ["Cbreak", "CbreakTermmode"],
     ["Input", "Input"], ["Fullscreen", "Input"], ["CursorAware", "Input"], ["Input", "CursorAware"], ["Input", "Fullscreen"],
-    ["Cbreak", "Nonblocking"], ["Input", "Nonblocking"], ["Termmode", "Input"], ["Cbreak", "Input"],
+    ["Cbreak", "Nonblocking"], ["Input", "Nonblocking"], ["Termmode", "Input"], ["Cbreak", "Input"], ["NonblockingPipe"], ["Input", "NonblockingPipe"],
 ]
 
 
@@ -364,7 +393,7 @@ def strategy():
     )
     exit_ = st.one_of(
         st.just({"mode": "normal"}),
-        st.fixed_dictionaries({"mode": st.just("raise"), "after": st.integers(0, 6)}),
+        st.fixed_dictionaries({"mode": st.just("raise"), "after": st.integers(0, 6), "exc": st.sampled_from(["plain", "args", "unicode"])}),
         st.fixed_dictionaries({"mode": st.just("sigint"), "after": st.integers(0, 5), "line": st.integers(1, 45)}),
     )
     return st.fixed_dictionaries(
